@@ -216,17 +216,55 @@ Example C18_residual_example :
 Proof. split; [exact example_hypotheses | vm_compute; reflexivity]. Qed.
 Print Assumptions C18_residual_example.
 
-(* METADATA: in a category of a model without delay states, the rows of the expanded model's metadata
-   (what variable_metadata_function stacks; repmat is the identity on 1x1 symbols) are, for each variable
-   of the unexpanded model in order, one row per element in np.ndindex order holding the selected
-   element of every attribute (a scalar variable keeps its own row).  PARTIAL with respect to DESIGN's
-   link to C13: C13's metadata model (Qc cells, python tags) is not imported; the statement is in C18's
-   vocabulary (the check evaluates the real variable_metadata_function against the declared elements). *)
-Theorem C18_metadata_rows_partial (g : list uvar) acc s acc' s' :
+(* METADATA.  Expansion commutes with the metadata row function: for ANY function `row` that computes a
+   variable's metadata row from its six attribute objects (for all R, row - nothing is assumed about it),
+   in a category of a model without delay states the rows of the EXPANDED model's variables are, per
+   variable of the unexpanded model in order, `row` of that variable's attributes specialised to each
+   element in np.ndindex order (the selected element of every attribute); a scalar keeps its own row.
+   PARTIAL: models with delay states are not covered (their renaming interleaves with the loop), and the
+   link to C13 is through `c13_row` below, not through C13's `var`/`decl` records. *)
+Theorem C18_metadata_rows_partial (R : Type) (row : list sel -> R) (g : list uvar) acc s acc' s' :
+  fold_left step_var g (Some (acc, s)) = Some (acc', s') -> st_delay s = [] ->
+  map row (map snd acc')
+  = map row (map snd acc)
+    ++ flat_map (fun v => if has_dims (ushape v)
+                          then map (fun idx => row (map (fun a => sel_attr a idx) (uattrs v)))
+                                   (ndindex (iter_dims (ushape v)))
+                          else [row (map keep_attr (uattrs v))]) g.
+Proof. exact (metadata_rows_commute R row g acc s acc' s'). Qed.
+Print Assumptions C18_metadata_rows_partial.
+
+(* instance 1: row = identity recovers the rows themselves *)
+Theorem C18_metadata_rows_own_partial (g : list uvar) acc s acc' s' :
   fold_left step_var g (Some (acc, s)) = Some (acc', s') -> st_delay s = [] ->
   map snd acc' = map snd acc ++ flat_map (fun v => rows_of v []) g /\ st_delay s' = [].
 Proof. exact (metadata_rows_group g acc s acc' s'). Qed.
-Print Assumptions C18_metadata_rows_partial.
+Print Assumptions C18_metadata_rows_own_partial.
+
+(* instance 2, in the vocabulary of C13's metadata model (Model/C13_metadata.v is imported read-only):
+   row = c13_row maps every selected attribute number to the C13 cell `CLit (ext)`; these are the cells
+   C13's `column` assigns to a size-1 Real variable declared with that finite literal, resp. C13's default
+   cell when the attribute is not given.  What remains for a full link: building C13's `var`/`decl`
+   record of an expanded scalar from the attribute objects (python types/tags, Integer/Boolean coercion,
+   symbolic `DExp` cells) and the affine rebuild A*p+b. *)
+Theorem C18_metadata_rows_c13_partial (g : list uvar) acc s acc' s' :
+  fold_left step_var g (Some (acc, s)) = Some (acc', s') -> st_delay s = [] ->
+  map c13_row (map snd acc')
+  = map c13_row (map snd acc)
+    ++ flat_map (fun v => if has_dims (ushape v)
+                          then map (fun idx => c13_row (map (fun a => sel_attr a idx) (uattrs v)))
+                                   (ndindex (iter_dims (ushape v)))
+                          else [c13_row (map keep_attr (uattrs v))]) g.
+Proof. exact (metadata_rows_commute _ c13_row g acc s acc' s'). Qed.
+Print Assumptions C18_metadata_rows_c13_partial.
+
+Theorem C18_c13_cells :
+  (forall d a q, d a = C13.DLit (C13.LReal q) ->
+     C13.column (C13.Var C13.TReal 1 d) a = Some [C13.CLit (C13.Fin q)])
+  /\ (forall d a, d a = C13.DNone ->
+     C13.column (C13.Var C13.TReal 1 d) a = Some [C13.CLit (fst (C13.default a))]).
+Proof. exact (conj c13_column_literal c13_column_default). Qed.
+Print Assumptions C18_c13_cells.
 
 (* non-vacuity: a der() array inside a component array, an output renamed in place, a delay state *)
 Example C18_example :
